@@ -152,6 +152,10 @@ macro "aframe" : tactic => `(tactic| repeat' (first
         | cons r t2 ih2 => intro w1; rw [List.foldl_cons, ih2]
       exact inner q.2 w0
   exact key _ w
+@[aframe] theorem payEntry_frame (t : Time) (e : Undel) : AFrame (payEntry t e) := by
+  unfold payEntry; aframe
+@[aframe] theorem payBucket_frame (b : UndelKey × List Undel) : AFrame (payBucket b) := by
+  unfold payBucket; aframe
 @[aframe] theorem completeUnbondings_frame : AFrame completeUnbondings := by
   unfold completeUnbondings; aframe
 @[aframe] theorem slashRedelegations_frame (v : ValId) (f : Dec) : AFrame (slashRedelegations v f) := by
